@@ -286,3 +286,22 @@ PROPS.update({
         "Trusted: Lean kernel; the scripted backend stands for massdb.v1's Delete (os.Remove of the two files of that space, refused "
         "while plotting: massdb.v1.go)."),
 })
+PROPS["C11"]["props"].append("MassVerif.Props.C11Scan")
+PROPS["C11"]["drivers_mod"].append("MassVerif.Driver.Scan")
+PROPS["C11"]["harnesses"].append({"name": "scan", "pkg": "harness/scan", "driver": "MassVerif/Driver/Scan.lean",
+                                  "quick": {"n": 150}, "thorough": {"n": 3000}, "search": {"n": 1500}, "replayable": False})
+PROPS["C11"]["level_text"] += (" Start-up half (Props/C11Scan, Model/Scan): for every wallet, directory content and entry order the "
+    "scan indexes no space twice; every indexed space comes from an entry with a plot-file name, a valid key and bit length and the "
+    "wallet's ordinal for that key; whatever canonical map-B file it will serve proofs from loaded (size, code, version, key, key hash), "
+    "is a map B and names the same key and bit length as the file name; ready iff that header's checkpoint reached half the volume; a "
+    "registered space's map A passed the same checks; each well-formed wallet-owned file yields an indexed space. Correspondence: real "
+    "keeper + real massdb.v1 on generated header-only files (renamed, foreign-key, wrong-ordinal, wrong code/version/type/hash, truncated, "
+    "map A missing or damaged, duplicates across directories, odd-cased and zero-padded names) vs the Lean scan; oracles on the "
+    "directories before/after (content tags) and on the headers of every indexed pair; legacy-name scenarios.")
+PROPS["C11"]["assumptions"] = PROPS["C11"]["assumptions"] + [
+    "Model/Scan.lean works on a description of the directories (per entry: name shape and fields; per canonical file: header fields) "
+    "that the harness derives from the files it generated; the name regexp (fact regMassDBV1) is read by the harness's own predicate, "
+    "not proved equivalent", "file names that match the regexp only case-insensitively or with a zero-padded ordinal are opened "
+    "under the canonical name (a fresh pair is created next to them): they are not 'well-formed names' in the theorems",
+    "legacy names (PK-BL-B.MASSDB) are exercised by oracles only (rename, no overwrite), not modelled in Lean"]
+
